@@ -235,10 +235,20 @@ struct Scenario {
     ops: Vec<Op>,
     #[serde(default)]
     family: String,
-    /// model parameter `Cfg.exportAlias`: false = the code as recorded in finding F-C18-1,
-    /// true = after the repair (set from the finding's status, never from the scenario file)
+    /// model parameters that select "the code as recorded in an open finding" or "the repaired code";
+    /// set from the findings' status, never from the scenario file
     #[serde(default, skip_serializing)]
-    export_alias: bool,
+    flags: Flags,
+}
+
+/// alias: Cfg.exportAlias (F-C18-1), canon: Cfg.canonFile (F-C18-3), dotted: Cfg.stem = id (F-C18-4),
+/// str_alias: Cfg.exportStrAlias (F-C18-5); true = the finding is recorded as fixed
+#[derive(Clone, Copy, Debug, Default, Deserialize)]
+struct Flags {
+    alias: bool,
+    canon: bool,
+    dotted: bool,
+    str_alias: bool,
 }
 
 /// names 200 + 10·a + b are the dotted module names `m<a>.v<b>`
@@ -323,7 +333,21 @@ fn path_sexp(p: &MPath) -> String {
 }
 
 fn request(sc: &Scenario) -> String {
-    let mut s = format!("run (cfg {} {} {}", sc.run_import_tests as u8, sc.host_tests as u8, sc.export_alias as u8);
+    let mut s = format!(
+        "run (cfg {} {} {} {} {} (stems",
+        sc.run_import_tests as u8,
+        sc.host_tests as u8,
+        sc.flags.alias as u8,
+        sc.flags.canon as u8,
+        sc.flags.str_alias as u8
+    );
+    if !sc.flags.dotted {
+        // what Path::with_extension keeps of a dotted module name
+        for n in 200..300u32 {
+            s.push_str(&format!(" ({} {})", n, (n - 200) / 10));
+        }
+    }
+    s.push(')');
     for p in &sc.prelude {
         s.push_str(&format!(" {}", p));
     }
@@ -785,8 +809,30 @@ fn mod_infos(sc: &Scenario) -> Option<Vec<ModInfo>> {
 }
 
 /// Returns (law, detail) for the first law that fails on the implementation's outputs.
-fn direct_laws(sc: &Scenario, outs: &[OpOut]) -> Option<(String, String)> {
-    let all: Vec<&String> = outs.iter().flat_map(|o| o.events.iter()).collect();
+/// `x/..` collapsed in a relative path text
+fn norm_rel(rel: &str) -> String {
+    let mut parts: Vec<&str> = vec![];
+    for c in rel.split('/') {
+        if c == ".." {
+            parts.pop();
+        } else if c != "." && !c.is_empty() {
+            parts.push(c);
+        }
+    }
+    parts.join("/")
+}
+
+/// `open`: ids of open known findings; failures that match the precise cause rule of an open finding
+/// are pushed to `attributed` (and the laws go on), everything else is returned as a failure.
+fn direct_laws(sc: &Scenario, outs: &[OpOut], open: &[String], attributed: &mut Vec<&'static str>) -> Option<(String, String)> {
+    let is_open = |id: &str| open.iter().any(|x| x == id);
+    let all_raw: Vec<&String> = outs.iter().flat_map(|o| o.events.iter()).collect();
+    // module_imported_callback paths are compared as files: `D:<normalised path>`
+    let normed: Vec<String> = all_raw
+        .iter()
+        .map(|e| if let Some(p) = e.strip_prefix("D:") { format!("D:{}", norm_rel(p)) } else { (*e).clone() })
+        .collect();
+    let all: Vec<&String> = normed.iter().collect();
     // unknown output lines
     if let Some(e) = all.iter().find(|e| e.starts_with('?')) {
         return Some(("wellformed-output".into(), format!("unexpected output line {}", e)));
@@ -797,6 +843,12 @@ fn direct_laws(sc: &Scenario, outs: &[OpOut]) -> Option<(String, String)> {
         // run-once: a module is reported as imported at most once per runtime …
         let d_positions: Vec<usize> = all.iter().enumerate().filter(|(_, e)| ***e == d_ev).map(|(i, _)| i).collect();
         if d_positions.len() > 1 {
+            // cause rule of F-C18-3: the same file was imported under different path spellings
+            let spellings: BTreeSet<&String> = d_positions.iter().map(|i| all_raw[*i]).collect();
+            if spellings.len() == d_positions.len() && is_open("F-C18-3") {
+                attributed.push("F-C18-3");
+                continue;
+            }
             return Some(("run-once".into(), format!("{} imported successfully {} times", mi.rel, d_positions.len())));
         }
         if let Some(top) = mi.top {
@@ -857,6 +909,56 @@ fn direct_laws(sc: &Scenario, outs: &[OpOut]) -> Option<(String, String)> {
             };
             if all.iter().any(|e| **e == d_ev || Some(&**e) == top_ev.as_ref()) {
                 return Some(("resolution-order".into(), format!("{} ran although {} exists next to it", f.path.rel(), MPath { is_dir: false, ..f.path.clone() }.rel())));
+            }
+        }
+    }
+    // dotted module names: `a.koto` must not run when no import names `a` (only `a.vN` is named)
+    {
+        let mut named: BTreeSet<Name> = BTreeSet::new();
+        let mut bodies: Vec<&Vec<TAct>> = sc.files.iter().filter_map(|f| f.body.as_ref()).collect();
+        bodies.extend(sc.ops.iter().map(|o| &o.body));
+        for b in bodies {
+            for a in acts_of(b) {
+                named.extend(imported_names(a));
+            }
+        }
+        for f in &sc.files {
+            let n = f.path.name;
+            if n < 200 && !named.contains(&n) && named.iter().any(|d| *d >= 200 && (*d - 200) / 10 == n) {
+                let d_ev = format!("D:{}", f.path.rel());
+                if all.iter().any(|e| **e == d_ev) {
+                    if is_open("F-C18-4") {
+                        attributed.push("F-C18-4");
+                    } else {
+                        return Some(("resolution-dotted".into(), format!("{} was imported although only dotted names with this stem are imported", f.path.rel())));
+                    }
+                }
+            }
+        }
+    }
+    // export_top_level_ids: the local bound by an import item (the alias, if any) is in the exports map
+    // after a successful script (F-C18-1 id items; F-C18-5 string items)
+    for (i, o) in sc.ops.iter().enumerate() {
+        let Some(out) = outs.get(i) else { continue };
+        if out.result != "ok" || !o.export_top {
+            continue;
+        }
+        let keys = top_level_keys(&out.exports);
+        for t in &o.body {
+            if let TAct::A(Act::Import(items)) | TAct::A(Act::From(_, items)) = t {
+                for it in items {
+                    if let Some(tg) = it.target() {
+                        if !keys.contains(&kvh::hex(name_str(tg).as_bytes())) {
+                            if it.str_ && is_open("F-C18-5") {
+                                attributed.push("F-C18-5");
+                            } else if !it.str_ && it.as_.is_some() && is_open("F-C18-1") {
+                                attributed.push("F-C18-1");
+                            } else {
+                                return Some(("import-binding-exported".into(), format!("after operation {} the local {} bound by a top-level import is not in the exports map", i, name_str(tg))));
+                            }
+                        }
+                    }
+                }
             }
         }
     }
@@ -1364,7 +1466,7 @@ impl<'a> Gen<'a> {
             files,
             ops,
             family: "random".into(),
-            export_alias: false,
+            flags: Flags::default(),
         }
     }
 
@@ -1471,7 +1573,7 @@ impl<'a> Gen<'a> {
             files,
             ops,
             family: format!("graph{}", kind),
-            export_alias: false,
+            flags: Flags::default(),
         }
     }
 }
@@ -1542,7 +1644,7 @@ fn wild_family(rng: &mut Rng) -> Scenario {
     }
     body2.push(TAct::A(Act::Print(next())));
     ops.push(Op { dir: vec![], export_top, body: body2 });
-    Scenario { run_import_tests: rng.chance(2, 3), host_tests: false, prelude: vec![], files, ops, family: "wildcards".into(), export_alias: false }
+    Scenario { run_import_tests: rng.chance(2, 3), host_tests: false, prelude: vec![], files, ops, family: "wildcards".into(), flags: Flags::default() }
 }
 
 /// exported-assignment family: a module re-exports parts of another module through every target shape
@@ -1660,7 +1762,7 @@ fn patterns_family(rng: &mut Rng) -> Scenario {
     }
     body.push(TAct::A(Act::Print(next())));
     ops.push(Op { dir: vec![], export_top: false, body });
-    Scenario { run_import_tests: true, host_tests: false, prelude: vec![], files, ops, family: "patterns".into(), export_alias: false }
+    Scenario { run_import_tests: true, host_tests: false, prelude: vec![], files, ops, family: "patterns".into(), flags: Flags::default() }
 }
 
 /// bounded-exhaustive family: every import graph over 3 flat modules in which each module imports
@@ -1702,7 +1804,7 @@ fn exhaustive3(idx: u32) -> Scenario {
             ops.push(Op { dir: vec![], export_top: false, body: vec![TAct::A(Act::Try(i.into(), next()))] });
         }
     }
-    Scenario { run_import_tests: true, host_tests: false, prelude: vec![], files, ops, family: "exhaustive3".into(), export_alias: false }
+    Scenario { run_import_tests: true, host_tests: false, prelude: vec![], files, ops, family: "exhaustive3".into(), flags: Flags::default() }
 }
 
 // ------------------------------------------------------------------------------------------------
@@ -1715,8 +1817,7 @@ struct Ctx {
     d_fail: u64,
     known_hits: BTreeMap<String, u64>,
     open: Vec<String>,
-    /// F-C18-1 is recorded as fixed: the model runs with exportAlias = true
-    alias_fixed: bool,
+    flags: Flags,
 }
 
 /// cause rule for listed findings: returns the finding id whose documented shape the scenario has.
@@ -1744,7 +1845,7 @@ fn known_shape(sc: &Scenario) -> Option<&'static str> {
 impl Ctx {
     fn model(&mut self, sc: &Scenario) -> Option<Vec<String>> {
         let mut sc = sc.clone();
-        sc.export_alias = self.alias_fixed;
+        sc.flags = self.flags;
         let drv = self.drv.as_mut()?;
         let resp = drv.ask(&request(&sc));
         Some(resp.split(" | ").map(|s| s.to_string()).collect())
@@ -1752,7 +1853,7 @@ impl Ctx {
 
     fn one(&mut self, sc: &Scenario) -> bool {
         let mut sc = sc.clone();
-        sc.export_alias = self.alias_fixed;
+        sc.flags = self.flags;
         let sc = &sc;
         let req = request(sc);
         let n_mod_acts: usize = sc.files.iter().map(|f| f.body.as_ref().map(|b| b.len()).unwrap_or(0)).sum();
@@ -1818,7 +1919,11 @@ impl Ctx {
         }
         let mut ok = true;
         // (D)
-        let d = direct_laws(sc, &outs);
+        let mut attributed: Vec<&'static str> = vec![];
+        let d = direct_laws(sc, &outs, &self.open, &mut attributed);
+        for id in attributed {
+            *self.known_hits.entry(id.to_string()).or_insert(0) += 1;
+        }
         if let Some((law, detail)) = &d {
             self.d_fail += 1;
             ok = false;
@@ -1886,12 +1991,14 @@ fn main() {
     let open: Vec<String> = rep.known_open().iter().filter_map(|e| e.get("id").and_then(|x| x.as_str()).map(|s| s.to_string())).collect();
     let drv = if args.driver.is_empty() { None } else { Some(Driver::spawn(&args.driver)) };
     let scratch = Scratch::new(args.seed);
-    let alias_fixed = rep
-        .known_entries()
-        .iter()
-        .any(|e| e.get("id").and_then(|x| x.as_str()) == Some("F-C18-1") && e.get("status").and_then(|x| x.as_str()) == Some("fixed"));
+    let fixed = |id: &str| {
+        rep.known_entries()
+            .iter()
+            .any(|e| e.get("id").and_then(|x| x.as_str()) == Some(id) && e.get("status").and_then(|x| x.as_str()) == Some("fixed"))
+    };
+    let flags = Flags { alias: fixed("F-C18-1"), canon: fixed("F-C18-3"), dotted: fixed("F-C18-4"), str_alias: fixed("F-C18-5") };
     let filter_f2 = open.iter().any(|x| x == "F-C18-2");
-    let mut cx = Ctx { rep, drv, scratch, k_fail: 0, d_fail: 0, known_hits: Default::default(), open, alias_fixed };
+    let mut cx = Ctx { rep, drv, scratch, k_fail: 0, d_fail: 0, known_hits: Default::default(), open, flags };
 
     if let Some(p) = &args.replay {
         let v: serde_json::Value = serde_json::from_str(&std::fs::read_to_string(p).expect("replay file")).unwrap();
@@ -1938,18 +2045,41 @@ fn main() {
         let (Some(id), Some(w)) = (e.get("id").and_then(|x| x.as_str()), e.get("witness_scenario")) else { continue };
         let sc: Scenario = serde_json::from_value(w.clone()).expect("witness_scenario");
         let status_known = e.get("status").and_then(|s| s.as_str()) == Some("known");
-        let expect_key = e.get("expected_export_key").and_then(|x| x.as_str()).unwrap_or("");
         let outs = run_impl(&mut cx.scratch, &sc);
-        // the witness fails when the expected key is missing from the final host exports
-        let failing = match &outs {
-            Ok(o) => !top_level_keys(&o.last().map(|x| x.exports.clone()).unwrap_or_default()).contains(&kvh::hex(expect_key.as_bytes())),
-            Err(_) => true,
-        };
+        // what the witness demands of the implementation's outputs (any one failing = the witness fails):
+        //   expected_export_key: the key is in the final host exports
+        //   expected_event:      the event occurs in the trace
+        //   event_at_most:       [event, n] — the event occurs at most n times
+        let all_events: Vec<String> = outs.as_ref().map(|o| o.iter().flat_map(|x| x.events.clone()).collect()).unwrap_or_default();
+        let mut why = String::new();
+        if outs.is_err() {
+            why = "the run panicked".into();
+        }
+        if let Some(k) = e.get("expected_export_key").and_then(|x| x.as_str()) {
+            let last = outs.as_ref().ok().and_then(|o| o.last()).map(|x| x.exports.clone()).unwrap_or_default();
+            if !top_level_keys(&last).contains(&kvh::hex(k.as_bytes())) {
+                why = format!("host exports lack key '{}' after the history", k);
+            }
+        }
+        if let Some(ev) = e.get("expected_event").and_then(|x| x.as_str()) {
+            if !all_events.iter().any(|x| x == ev) {
+                why = format!("event {} does not occur", ev);
+            }
+        }
+        if let Some(arr) = e.get("event_at_most").and_then(|x| x.as_array()) {
+            if let (Some(ev), Some(n)) = (arr.first().and_then(|x| x.as_str()), arr.get(1).and_then(|x| x.as_u64())) {
+                let c = all_events.iter().filter(|x| *x == ev).count() as u64;
+                if c > n {
+                    why = format!("event {} occurs {} times (at most {} expected)", ev, c, n);
+                }
+            }
+        }
+        let failing = !why.is_empty();
         if status_known && failing {
-            cx.rep.known(id, &format!("witness still fails: host exports lack key '{}' after the history", expect_key));
+            cx.rep.known(id, &format!("witness still fails: {}", why));
         } else if !status_known && failing {
             cx.d_fail += 1;
-            cx.rep.violation("D", &format!("C18:regression:{}", id), json!({"scenario": sc, "note": "a finding recorded as fixed fails again"}));
+            cx.rep.violation("D", &format!("C18:regression:{}", id), json!({"scenario": sc, "why": why, "note": "a finding recorded as fixed fails again"}));
         } else if status_known && !failing {
             cx.rep.note(format!("{}: witness no longer fails (the defect seems repaired; update known_findings.json)", id));
         }
